@@ -15,7 +15,7 @@ def fam(run, profiles=None, core=3, rnd=40, hand=True):
     out = []
     if hand: out += rulesets.handwritten()
     out += [s for s in rulesets.core_family(core) if profiles is None or s["profile"] in profiles]
-    r = rulesets.random_family(run.seed, rnd * (4 if run.tier == "thorough" else 1))
+    r = rulesets.random_family(run.seed, rnd * (2 if run.tier == "thorough" else 1))
     out += [s for s in r if profiles is None or s["profile"] in profiles]
     return out
 
@@ -25,10 +25,10 @@ def c01(run):
     fd = build.build_flex()
     rng = random.Random(run.seed)
     mc = units.model_async(run, invariants=("LongestFirst", "EofOnlyAtEnd"))
-    srcs = fam(run, core=3 if run.tier == "quick" else 12, rnd=40)
-    srcs += rulesets.proto_family(12 if run.tier == "quick" else 60) + [rulesets.proto_ruleset(random.Random(run.seed * 7919 + i), "rnd-proto-%d" % i) for i in range(6 if run.tier == "quick" else 40)]
+    srcs = fam(run, core=3 if run.tier == "quick" else 6, rnd=40)
+    srcs += rulesets.proto_family(12 if run.tier == "quick" else 30) + [rulesets.proto_ruleset(random.Random(run.seed * 7919 + i), "rnd-proto-%d" % i) for i in range(6 if run.tier == "quick" else 20)]
     cases = units.product_unit(run, fd, srcs, [{"tbl": ""}], tag="product", san=True)
-    units.trace_unit(run, cases, rng, per_case=8 if run.tier == "quick" else 30, scripts=False, tag="tokens", full_cover=600 if run.tier == "quick" else 3000)
+    units.trace_unit(run, cases, rng, per_case=8 if run.tier == "quick" else 16, scripts=False, tag="tokens", full_cover=600 if run.tier == "quick" else 1500)
     mc.result()
     run.assumptions += ["rule sets are sampled (each one is decided for all inputs by the product check)",
                         "Render() (lib/vf/pattern.py) writes the manual's concrete syntax"]
@@ -68,8 +68,8 @@ def c02(run):
         + tbl_cfgs(["-Cem", "-Cf", "-CF", "-Cfe"], extra={"bits": 7})
     units.product_unit(run, fd, [s for s in fixed if not s.get("sevenbit")], lattice, tag="lattice")
     # (b) every other rule set under a seeded sample of configurations
-    rest = hand[4:] + [s for s in core if s not in fixed] + rulesets.random_family(run.seed, 20 if q else 120)
-    sample = [rng.choice(lattice[:48]) for _ in range(3 if q else 8)] + [{"tbl": "-Cfe"}, {"tbl": "-CF"}]
+    rest = hand[4:] + [s for s in core if s not in fixed] + rulesets.random_family(run.seed, 20 if q else 60)
+    sample = [rng.choice(lattice[:48]) for _ in range(3 if q else 5)] + [{"tbl": "-Cfe"}, {"tbl": "-CF"}]
     units.product_unit(run, fd, rest, sample, tag="sample")
     # (c) API flavours / yytext kinds: the same abstract machine must explain all of them
     flav = []
@@ -88,7 +88,7 @@ def c02(run):
              {"flavour": "cxx", "userread": False}, {"flavour": "cxx", "interactive": False, "stack": True, "tbl": "-Ca"}]
     srcs = hand[:3] + [s for s in core if s["profile"] in ("mix", "nul", "sc", "trail")]
     cases = units.product_unit(run, fd, srcs, flav, tag="flavours", san=True)
-    units.trace_unit(run, cases, rng, per_case=16 if q else 60, tag="flavtraces", full_cover=40 if q else 200)
+    units.trace_unit(run, cases, rng, per_case=16 if q else 32, tag="flavtraces", full_cover=40 if q else 100)
     run.assumptions += ["go back end is outside the property (not a documented back end)",
                         "C++ lexer class: no in-memory buffers, no %array (not offered by that interface)"]
 
@@ -98,7 +98,7 @@ def c04(run):
     fd = build.build_flex()
     rng = random.Random(run.seed)
     q = run.tier == "quick"
-    srcs = [s for s in fam(run, profiles=("nul", "high", "seven", "mix"), core=4 if q else 12, rnd=30)]
+    srcs = [s for s in fam(run, profiles=("nul", "high", "seven", "mix"), core=4 if q else 8, rnd=30)]
     srcs = [s for s in srcs if s.get("profile") or "nul" in s.get("name", "")]
     cfgs = tbl_cfgs(["", "-C", "-Cf", "-CF", "-Cfe", "-CFe", "-Cfa"], inter=(None, False)) + tbl_cfgs(["", "-Cm"], inter=(None, False), reject=(True,))
     cfgs += [{"flavour": "c99", "tbl": t} for t in ("", "-Cf", "-CF", "-Cfe")] + [{"flavour": "c99", "interactive": False, "reject": True},
@@ -116,8 +116,8 @@ def c04(run):
             out.append(bytes(s))
         return out
     sel = [c for c in cases if c.status == "ok"]
-    units.trace_unit(run, sel, rng, per_case=10 if q else 30, tag="nultraces", bufsizes=(0, 1, 2, 3, 5, 8),
-                     scheds=[[1], [2], [1, 3], [], [7]], inputs_fn=nul_inputs, full_cover=60 if q else 400)
+    units.trace_unit(run, sel, rng, per_case=10 if q else 20, tag="nultraces", bufsizes=(0, 1, 2, 3, 5, 8),
+                     scheds=[[1], [2], [1, 3], [], [7]], inputs_fn=nul_inputs, full_cover=60 if q else 150)
 
 
 @check("C06")
@@ -125,10 +125,10 @@ def c06(run):
     fd = build.build_flex()
     rng = random.Random(run.seed)
     q = run.tier == "quick"
-    srcs = fam(run, profiles=("trail", "anch", "bol", "bar", "mix"), core=6 if q else 20, rnd=60)
+    srcs = fam(run, profiles=("trail", "anch", "bol", "bar", "mix"), core=6 if q else 10, rnd=60)
     cfgs = [{"tbl": ""}, {"tbl": "-Cf"}, {"tbl": "-CF"}, {"tbl": "", "reject": True, "interactive": False}, {"flavour": "c99"}]
     cases = units.product_unit(run, fd, srcs, cfgs, tag="product", san=True)
-    units.trace_unit(run, [c for c in cases if c.status == "ok"], rng, per_case=6 if q else 20, tag="traces", full_cover=600 if q else 3000)
+    units.trace_unit(run, [c for c in cases if c.status == "ok"], rng, per_case=6 if q else 12, tag="traces", full_cover=600 if q else 1500)
     run.assumptions += ["rule sets for which flex prints 'dangerous trailing context' are skipped (as the property allows)",
                         "whether a rule is compiled as *variable* trailing context is taken from the artifact (DESIGN.md C06)"]
 
@@ -138,14 +138,14 @@ def c07(run):
     fd = build.build_flex()
     rng = random.Random(run.seed)
     q = run.tier == "quick"
-    srcs = fam(run, profiles=("lit", "ops", "trail", "sc", "mix", "ccl", "rep"), core=3 if q else 10, rnd=40)
+    srcs = fam(run, profiles=("lit", "ops", "trail", "sc", "mix", "ccl", "rep"), core=3 if q else 6, rnd=40)
     cfgs = [{"tbl": "", "reject": True, "yymore": True}, {"tbl": "-Cm", "reject": True, "interactive": False},
             {"flavour": "c99", "reject": True, "yymore": True}]
     cases = units.product_unit(run, fd, srcs, cfgs, tag="product", san=True)
-    units.trace_unit(run, [c for c in cases if c.status == "ok"], rng, per_case=24 if q else 80, tag="rejtraces",
-                     full_cover=40 if q else 200)
+    units.trace_unit(run, [c for c in cases if c.status == "ok"], rng, per_case=24 if q else 48, tag="rejtraces",
+                     full_cover=40 if q else 100)
     # REJECT found by flex in the action text (no %option reject), batch and interactive, NUL bytes in the input
-    asrcs = fam(run, profiles=("nul", "lit", "trail", "mix"), core=3 if q else 8, rnd=10 if q else 40)
+    asrcs = fam(run, profiles=("nul", "lit", "trail", "mix"), core=3 if q else 5, rnd=10 if q else 20)
     acfgs = [{"tbl": "", "reject": "auto", "interactive": False}, {"tbl": "-Ca", "reject": "auto", "yymore": "auto", "interactive": True},
              {"tbl": "-Cem", "reject": "auto", "interactive": False, "flavour": "r", "array": True}]
     acases = units.product_unit(run, fd, asrcs, acfgs, tag="autoproduct", san=True)
@@ -153,15 +153,15 @@ def c07(run):
         base = units.cover_inputs(c, rng, n // 2)
         al = c.alphabet + [0, 0]
         return base + [bytes(rng.choice(al) for _ in range(rng.randint(1, 10))) for _ in range(n - len(base))]
-    units.trace_unit(run, [c for c in acases if c.status == "ok"], rng, per_case=16 if q else 60, tag="autoreject",
-                     inputs_fn=nulrich, bufsizes=(0, 0, 4), full_cover=40 if q else 200)
+    units.trace_unit(run, [c for c in acases if c.status == "ok"], rng, per_case=16 if q else 32, tag="autoreject",
+                     inputs_fn=nulrich, bufsizes=(0, 0, 4), full_cover=40 if q else 100)
     # many more small rule sets, tables only: the order of the accepting lists (yy_acclist) against the ordered
     # accepting sets of the specification, in every product state
     # (a seeded change that leaves some accepting lists unsorted - after a hash collision in the subset construction -
     # showed in about 0.75% of such rule sets: hence their number)
     more = []
     k = 0
-    while len(more) < (420 if q else 3000):
+    while len(more) < (420 if q else 2000):
         g = rulesets.gen_ruleset(random.Random((run.seed + 1) * 1000003 + k), ("ops", "ref", "trail", "grp", "rep", "ccl")[k % 6], name="rnd-acc-%d" % k); k += 1
         more.append(g)
     units.product_unit(run, fd, more, [{"tbl": "", "reject": True}], tag="acclists")
@@ -173,7 +173,7 @@ def c07(run):
 def c17(run):
     fd = build.build_flex()
     q = run.tier == "quick"
-    srcs = fam(run, core=4 if q else 12, rnd=80)
+    srcs = fam(run, core=4 if q else 8, rnd=80)
     for tagname, cfg in (("warn", {"tbl": ""}), ("warn-s", {"tbl": "", "extra_opts": "nodefault"})):
         cases = units.product_unit(run, fd, srcs, [cfg], tag=tagname)
         for c in cases:
@@ -229,14 +229,14 @@ def c05(run):
     rng = random.Random(run.seed)
     q = run.tier == "quick"
     mc = units.model_async(run, invariants=(), properties=('ScOnly', 'StackLIFO'))
-    srcs = fam(run, profiles=("sc", "sc3", "anch", "mix"), core=6 if q else 20, rnd=60)
+    srcs = fam(run, profiles=("sc", "sc3", "anch", "mix"), core=6 if q else 10, rnd=60)
     # activation: all inputs, all (condition, bol) start states, rendered as prefixes and as scopes
     cfgs = [{"tbl": "", "stack": True}, {"tbl": "", "scopes": True}, {"tbl": "-Cf"}, {"tbl": "", "reject": True}, {"flavour": "c99", "stack": True}]
     cases = units.product_unit(run, fd, srcs, cfgs, tag="product", san=True)
     ok = [c for c in cases if c.status == "ok" and not c.cfg.get("scopes")]
-    units.trace_unit(run, ok, rng, per_case=10 if q else 40, tag="sctraces", full_cover=400 if q else 3000)
+    units.trace_unit(run, ok, rng, per_case=10 if q else 20, tag="sctraces", full_cover=400 if q else 1000)
     # deep stacks / underflow
-    deep = [c for c in ok if c.cfg.get("tbl") == "" and not c.cfg.get("reject")][:12 if q else 60]
+    deep = [c for c in ok if c.cfg.get("tbl") == "" and not c.cfg.get("reject")][:12 if q else 30]
     scr = {}
     def jf(c, job):
         lst = scr.setdefault(c.id, stack_scripts(random.Random(run.seed + hash(c.id) % 1000), c))
@@ -255,7 +255,7 @@ def c05(run):
         job["ops"] = [x for _ in range(8) for x in ([("O", 0)] if r.random() < 0.5 else []) + [("T", 0) if r.random() < 0.6 else ("-", 0)]]
         job["initsc"] = 0
         return job
-    units.trace_unit(run, [c for c in ok if c.cfg.get("stack", True)][:40 if q else 200], rng, per_case=6 if q else 20, tag="precall", job_filter=precall, scripts=False)
+    units.trace_unit(run, [c for c in ok if c.cfg.get("stack", True)][:40 if q else 100], rng, per_case=6 if q else 12, tag="precall", job_filter=precall, scripts=False)
     run.assumptions.append("calls between yylex() calls and across yyrestart/buffer switches: see the buffer units of C10/C11")
     mc.result()
 
@@ -266,7 +266,7 @@ def c08(run):
     rng = random.Random(run.seed)
     q = run.tier == "quick"
     mc = units.model_async(run, invariants=('Conservation',), properties=())
-    srcs = fam(run, profiles=("lit", "ops", "ccl", "dot", "nul", "trail", "mix"), core=3 if q else 10, rnd=40)
+    srcs = fam(run, profiles=("lit", "ops", "ccl", "dot", "nul", "trail", "mix"), core=3 if q else 6, rnd=40)
     cfgs = []
     for arr in (False, True):
         for fl in ("nr", "r"):
@@ -284,7 +284,7 @@ def c08(run):
         units.trace_unit(sub, cs, random.Random(1), per_case=1, tag="t", scripts=False, scheds=[[3]], job_filter=jf,
                          inputs_fn=lambda c, r, n: [bytes([97, 98, 98, 99, 10])])
     run.probe("array-yyless-after-yymore", arrayless_probe)
-    units.trace_unit(run, [c for c in cases if c.status == "ok"], rng, per_case=16 if q else 60, tag="edits",
+    units.trace_unit(run, [c for c in cases if c.status == "ok"], rng, per_case=16 if q else 32, tag="edits",
                      bufsizes=(0, 0, 1, 2, 3, 8, 16), scheds=[[1], [2, 1], [], [5]],
                      script_modes=("random", "random", "moreless"), maxops=40)
     mc.result()
@@ -296,7 +296,7 @@ def c09(run):
     rng = random.Random(run.seed)
     q = run.tier == "quick"
     mc = units.model_async(run, invariants=('LinenoExact',), properties=())
-    srcs = fam(run, profiles=("lit", "dot", "ccl", "posix", "setop", "grp", "ref", "trail", "anch", "mix"), core=2 if q else 10, rnd=30)
+    srcs = fam(run, profiles=("lit", "dot", "ccl", "posix", "setop", "grp", "ref", "trail", "anch", "mix"), core=2 if q else 5, rnd=30)
     srcs += newline_forms()
     cfgs = [{"yymore": True}, {"flavour": "r", "yymore": True}, {"reject": True, "interactive": False},
             {"array": True, "yymore": True}, {"yylineno": "no"}, {"tbl": "-Cf"}, {"flavour": "c99", "yymore": True, "reject": True}, {"flavour": "cxx", "yymore": True}]
@@ -306,7 +306,7 @@ def c09(run):
         base = units.cover_inputs(c, rng, n // 2)
         al = c.alphabet + [10, 10, 10]
         return base + [bytes(rng.choice(al) for _ in range(rng.randint(1, 14))) for _ in range(n - len(base))]
-    units.trace_unit(run, [c for c in cases if c.status == "ok"], rng, per_case=14 if q else 50, tag="lineno",
+    units.trace_unit(run, [c for c in cases if c.status == "ok"], rng, per_case=14 if q else 28, tag="lineno",
                      inputs_fn=nl_inputs, bufsizes=(0, 0, 3, 8))
     mc.result()
 
@@ -371,12 +371,12 @@ def c10(run):
     fd = build.build_flex()
     rng = random.Random(run.seed)
     q = run.tier == "quick"
-    srcs = fam(run, profiles=("sc3", "sc", "lit", "trail", "anch", "mix"), core=3 if q else 10, rnd=40)
+    srcs = fam(run, profiles=("sc3", "sc", "lit", "trail", "anch", "mix"), core=3 if q else 6, rnd=40)
     cfgs = [{"userwrap": True}, {"userwrap": True, "flavour": "r"}, {"userwrap": False}, {"userwrap": True, "tbl": "-Cf"},
             {"userwrap": True, "reject": True, "interactive": False}, {"userwrap": True, "flavour": "c99"}, {"userwrap": True, "flavour": "cxx"}]
     cases = units.product_unit(run, fd, srcs, cfgs, tag="product", san=True)
     ok = [c for c in cases if c.status == "ok"]
-    units.trace_unit(run, ok, rng, per_case=16 if q else 60, tag="eof", job_filter=buffer_jobs("eof"), scripts=False)
+    units.trace_unit(run, ok, rng, per_case=16 if q else 32, tag="eof", job_filter=buffer_jobs("eof"), scripts=False)
 
 
 @check("C11")
@@ -385,12 +385,12 @@ def c11(run):
     rng = random.Random(run.seed)
     q = run.tier == "quick"
     mc = units.model_async(run, invariants=('Conservation',), properties=('Isolation',))
-    srcs = fam(run, profiles=("lit", "sc", "ccl", "anch", "nul", "mix"), core=3 if q else 10, rnd=40)
+    srcs = fam(run, profiles=("lit", "sc", "ccl", "anch", "nul", "mix"), core=3 if q else 6, rnd=40)
     cfgs = [{"userwrap": False}, {"userwrap": True}, {"userwrap": False, "flavour": "r"}, {"userwrap": True, "flavour": "r", "tbl": "-Cf"},
             {"userwrap": True, "flavour": "c99"}, {"userwrap": True, "flavour": "cxx"}]
     cases = units.product_unit(run, fd, srcs, cfgs, tag="product", san=True)
     ok = [c for c in cases if c.status == "ok"]
-    units.trace_unit(run, ok, rng, per_case=20 if q else 80, tag="buffers", job_filter=buffer_jobs("buf"), scripts=False)
+    units.trace_unit(run, ok, rng, per_case=20 if q else 40, tag="buffers", job_filter=buffer_jobs("buf"), scripts=False)
     mc.result()
 
 
@@ -399,7 +399,7 @@ def c03(run):
     fd = build.build_flex()
     rng = random.Random(run.seed)
     q = run.tier == "quick"
-    srcs = fam(run, profiles=("lit", "ops", "rep", "ccl", "dot", "trail", "anch", "sc", "mix"), core=3 if q else 10, rnd=40)
+    srcs = fam(run, profiles=("lit", "ops", "rep", "ccl", "dot", "trail", "anch", "sc", "mix"), core=3 if q else 6, rnd=40)
     # (a) no over-read / schedule independence with the harness's own YY_INPUT: every Read event must be
     #     needed (strictread), for interactive and batch scanners, buffer sizes 1..64 and every read-size pattern
     cfgs = [{"interactive": True}, {"interactive": False}, {"tbl": "-Cf"}, {"tbl": "-CF"},
@@ -416,7 +416,7 @@ def c03(run):
             s = bytes(rng.choice(al) for _ in range(rng.choice([3, 9, 20, 40, 70])))
             out.append(s)
         return [bytes(b for b in s if b != 0) for s in out]
-    units.trace_unit(run, ok, rng, per_case=12 if q else 40, tag="schedules", strictread=True, scripts=False,
+    units.trace_unit(run, ok, rng, per_case=12 if q else 24, tag="schedules", strictread=True, scripts=False,
                      bufsizes=(0, 1, 2, 3, 4, 7, 16, 64), scheds=[[1], [2], [3], [1, 2], [5, 1], [], [64], [2, 1, 4]],
                      inputs_fn=long_inputs)
     # (b) the scanner's own YY_INPUT (stdio) and in-memory delivery: same specification, same tokens
@@ -424,7 +424,7 @@ def c03(run):
              {"userread": False, "extra_opts": "always-interactive"}, {"userread": False, "extra_opts": "always-interactive", "flavour": "r", "tbl": "-Ca"},
              {"userread": False, "flavour": "c99"}, {"userread": False, "flavour": "c99", "extra_opts": "always-interactive"},
              {"userread": False, "flavour": "cxx"}, {"userread": False, "flavour": "cxx", "interactive": True}]
-    cases2 = units.product_unit(run, fd, srcs[:40 if q else 200], cfgs2, tag="stdio", san=True)
+    cases2 = units.product_unit(run, fd, srcs[:40 if q else 100], cfgs2, tag="stdio", san=True)
 
     def mem_delivery(c, job):
         r = random.Random(hash((c.id, bytes(job["input"]))) & 0xffffffff)
@@ -434,7 +434,7 @@ def c03(run):
             job["outs"] = [(r.choice("yz"), 1), ("-", 0)]     # scan the same bytes from memory instead
             job["input"] = b""
         return job
-    units.trace_unit(run, [c for c in cases2 if c.status == "ok"], rng, per_case=10 if q else 30, tag="delivery",
+    units.trace_unit(run, [c for c in cases2 if c.status == "ok"], rng, per_case=10 if q else 20, tag="delivery",
                      scripts=False, bufsizes=(0, 1, 3, 8), scheds=[[1], [3], [], [2, 5]], job_filter=mem_delivery, inputs_fn=long_inputs)
     units.buffer_model_unit(run)
     # known finding: an interactive scanner asks for one more byte after a NUL that completes a token
@@ -454,7 +454,7 @@ def c13(run):
     fd = build.build_flex()
     rng = random.Random(run.seed)
     q = run.tier == "quick"
-    srcs = fam(run, profiles=("lit", "ccl", "nul", "sc", "trail", "mix"), core=2 if q else 8, rnd=24)
+    srcs = fam(run, profiles=("lit", "ccl", "nul", "sc", "trail", "mix"), core=2 if q else 5, rnd=24)
     # (i) every index the matching loop can form, in every table representation (IndexSafe of MC_Product)
     cfgs = [{"tbl": t, "heap": True, "yymore": True} for t in ("", "-C", "-Cf", "-CF", "-Cfe", "-Ca")] + \
            [{"reject": True, "heap": True, "yymore": True, "array": True}, {"flavour": "r", "heap": True, "yymore": True, "userwrap": True},
@@ -470,7 +470,7 @@ def c13(run):
         if r.random() < 0.2:
             job["ops"] = stack_scripts(r, c, 1)[0]
         return job
-    units.trace_unit(run, ok, rng, per_case=10 if q else 40, tag="histories", job_filter=jf, bufsizes=(0, 1, 2, 5, 16), maxops=40)
+    units.trace_unit(run, ok, rng, per_case=10 if q else 20, tag="histories", job_filter=jf, bufsizes=(0, 1, 2, 5, 16), maxops=40)
     # (iii) %array capacity: text accumulated with yymore() up to and beyond YYLMAX must end in the documented fatal error
     P = rulesets.P
     big = rulesets.ruleset([rulesets.rule(P.plus(P.ccl([P.cr(97, 122)]))), rulesets.rule(P.chr_(10))], name="array-capacity")
@@ -495,12 +495,12 @@ def c14(run):
     fd = build.build_flex()
     rng = random.Random(run.seed)
     q = run.tier == "quick"
-    srcs = fam(run, profiles=("lit", "sc", "trail", "mix"), core=1, rnd=6 if q else 40, hand=False) + rulesets.handwritten()[:3]
+    srcs = fam(run, profiles=("lit", "sc", "trail", "mix"), core=1, rnd=6 if q else 20, hand=False) + rulesets.handwritten()[:3]
     cfgs = [{"heap": True, "yymore": True, "userread": False}, {"heap": True, "reject": True, "userread": False, "array": True},
             {"heap": True, "flavour": "r", "userwrap": True, "userread": False}, {"heap": True, "tbl": "-Cf", "userread": False},
             {"heap": True, "flavour": "c99", "userwrap": True, "userread": False, "yymore": True}]
     cases = units.product_unit(run, fd, srcs, cfgs, tag="product", san=True)
-    units.fault_unit(run, [c for c in cases if c.status == "ok"], rng, per_case=2 if q else 6, max_points=30 if q else 200)
+    units.fault_unit(run, [c for c in cases if c.status == "ok"], rng, per_case=2 if q else 4, max_points=30 if q else 100)
     run.assumptions += ["one fault per run (single-fault enumeration over every allocation index / read index of each scenario, capped per scenario in the quick tier)"]
 
 
@@ -743,7 +743,7 @@ def c15(run):
     fd = build.build_flex()
     rng = random.Random(run.seed)
     q = run.tier == "quick"
-    srcs = [s for s in fam(run, profiles=("lit", "sc", "trail", "nul", "ccl"), core=1, rnd=8 if q else 40)][:10 if q else 60]
+    srcs = [s for s in fam(run, profiles=("lit", "sc", "trail", "nul", "ccl"), core=1, rnd=8 if q else 40)][:10 if q else 30]
     tcfgs = [{"tbl": t} for t in ("", "-Cf", "-CF", "-Cfe", "-C", "-Ca")] + [{"tbl": "", "reject": True}]
     pairs = []
     cases_in = units.product_unit(run, fd, srcs, tcfgs, tag="incode", san=True)
@@ -753,7 +753,7 @@ def c15(run):
             b.T = a.T; b.states = a.states
             pairs.append((a, b))
     # (1) behaviour after yytables_fload == behaviour with in-code tables (same specification, equal executions)
-    units.trace_unit(run, [x for p in pairs for x in p], rng, per_case=10 if q else 40, tag="loaded", full_cover=30 if q else 200)
+    units.trace_unit(run, [x for p in pairs for x in p], rng, per_case=10 if q else 20, tag="loaded", full_cover=30 if q else 100)
 
     # (2) layout + content of the file, (3) the loader on every truncation / wrong magic / concatenation order
     def loader(exe, path):
@@ -777,7 +777,8 @@ def c15(run):
         for vn, bytes_, name, compare in variants:
             fpath = os.path.join(wd, "%s-%s.tables" % (b.id, vn)); open(fpath, "wb").write(bytes_)
             ks = list(range(0, len(bytes_) + 1))
-            if q and len(ks) > 400: ks = sorted(set(rng.sample(ks, 380) + list(range(0, 40)) + [len(bytes_) - i for i in range(0, 20)]))
+            cap_ = 400 if q else 3000        # (every header byte and the tail always; the interior sampled)
+            if len(ks) > cap_: ks = sorted(set(rng.sample(ks, cap_ - 20) + list(range(0, 40)) + [len(bytes_) - i for i in range(0, 20)]))
             case = dict(bytes=list(bytes_), name=[ord(ch) for ch in name], T=a.T, compare=compare, obs=[], cid=b.id, variant=vn)
             tlc_cases.append(case)
             for k in ks:
